@@ -246,9 +246,39 @@ class TClientHarness:
                'headers': dict(headers), 'timeout': timeout}
         self.log.http.append(rec)
         f = self.faults.next('http')
+        if f is None and method == 'POST':
+            f = self.faults.next('http-post')       # faults addressed to the n-th POST
+        if f:
+            self.faults.fired[-1].update(method=method, t=self.clock.now,
+                                         state=self.client.state, req_body=data)
         rec['fault'] = f['kind'] if f else None
         if self.latency:
             self.sched.block(lambda: False, self.latency, 'latency')
+        if f and f['kind'] == 'lenient':
+            # from here on the peer is a server that never gives up on a client: every GET is
+            # answered with a PING after `every` seconds, every POST with ok (unless a fault
+            # addressed to that POST says otherwise); the real server is not contacted
+            rec['lenient'] = True
+            if method == 'POST':
+                pf = self.faults.next('http-post')
+                if pf:
+                    self.faults.fired[-1].update(method=method, t=self.clock.now,
+                                                 state=self.client.state, req_body=data)
+                    rec['fault'] = pf['kind']
+                    if pf['kind'] in ('refuse', 'drop-after'):
+                        raise ReqConnectionError('connection reset (scripted)')
+                    rec['status'] = pf.get('status', 503)
+                    return FakeResponse(rec['status'], pf.get('body', 'oops').encode(),
+                                        [('Content-Type', pf.get('ctype', 'text/plain'))])
+                rec['status'] = 200
+                return FakeResponse(200, b'ok', [('Content-Type', 'text/plain')])
+            every = f.get('every', 2.5)
+            if timeout is not None and timeout < every:
+                self.sched.block(lambda: False, timeout, 'lenient-get')
+                raise Timeout('read timed out')
+            self.sched.block(lambda: False, every, 'lenient-get')
+            rec['status'] = 200
+            return FakeResponse(200, b'2', [('Content-Type', 'text/plain; charset=UTF-8')])
         if f and f['kind'] == 'refuse':
             raise ReqConnectionError('connection refused (scripted)')
         body = data.encode('utf-8') if isinstance(data, str) else (data or b'')
@@ -625,9 +655,37 @@ class FakeAioSession:
                'timeout': total}
         h.log.http.append(rec)
         f = h.faults.next('http')
+        if f is None and method == 'POST':
+            f = h.faults.next('http-post')          # faults addressed to the n-th POST
+        if f:
+            h.faults.fired[-1].update(method=method, t=h.clock.now, state=h.client.state,
+                                      req_body=data)
         rec['fault'] = f['kind'] if f else None
         if h.latency:
             await asyncio.sleep(h.latency)
+        if f and f['kind'] == 'lenient':
+            # (see TClientHarness._http)
+            rec['lenient'] = True
+            if method == 'POST':
+                pf = h.faults.next('http-post')
+                if pf:
+                    h.faults.fired[-1].update(method=method, t=h.clock.now, state=h.client.state,
+                                              req_body=data)
+                    rec['fault'] = pf['kind']
+                    if pf['kind'] in ('refuse', 'drop-after'):
+                        raise aiohttp.ServerDisconnectedError('connection reset (scripted)')
+                    rec['status'] = pf.get('status', 503)
+                    return FakeAioResponse(rec['status'], pf.get('body', 'oops').encode(),
+                                           [('Content-Type', pf.get('ctype', 'text/plain'))])
+                rec['status'] = 200
+                return FakeAioResponse(200, b'ok', [('Content-Type', 'text/plain')])
+            every = f.get('every', 2.5)
+            if total is not None and total < every:
+                await asyncio.sleep(total)
+                raise asyncio.TimeoutError()
+            await asyncio.sleep(every)
+            rec['status'] = 200
+            return FakeAioResponse(200, b'2', [('Content-Type', 'text/plain; charset=UTF-8')])
         if f and f['kind'] == 'refuse':
             raise aiohttp.ClientConnectionError('connection refused (scripted)')
         body = data.encode('utf-8') if isinstance(data, str) else (data or b'')
